@@ -57,6 +57,12 @@ Proof.
 Qed.
 Print Assumptions C14_expression_evaluation_is_bounded.
 
+(* the walk over chained unwind infos is bounded by a constant of the source (regenerated on every run; a loop that
+   compares its counter with nothing - the tree before the repair of S11e - makes this fail): cyclic chains end *)
+Theorem C14_chain_walk_is_bounded : exists k, PE_CHAIN_LIMIT = Some k /\ CHAIN_LIMIT = N.to_nat k /\ (0 < k)%N.
+Proof. unfold CHAIN_LIMIT. destruct PE_CHAIN_LIMIT as [k|] eqn:E; [|discriminate E]. exists k. repeat split. inversion E; subst; reflexivity. Qed.
+Print Assumptions C14_chain_walk_is_bounded.
+
 (* non-vacuity: a self-chained unwind info, a function entry that ends before it begins and a text
    view shorter than its range - all answered with the frame-pointer fallback, not a panic *)
 Example C14_example :
